@@ -127,6 +127,25 @@ class Judge:
         out = []
         s = self.s
         sig0 = _family_sig(s)
+        if res["exc"] is not None and res["exc"].get("interrupted"):
+            # killed part-way (F-INTERRUPT): nothing was returned.  What survives is the
+            # caller's buffer pair; whether it is a consistent (w, X w + b) pair is recorded as
+            # a probe (no property constrains the buffers at an interruption) and decides how
+            # the client restarts: from the pair as it is, or with the model fit recomputed.
+            res["outcome"] = "interrupted"
+            s.probe("solve_interrupted")
+            if res.get("w_buf") is not None and res.get("Xw_buf") is not None:
+                try:
+                    pr = self.problem(res["fi"])
+                    w, b = pr.split(res["w_buf"])
+                    fit = pr.predictor(w, b)
+                    ok = pr.finite(w, b) and np.shape(fit) == np.shape(res["Xw_buf"]) and \
+                        float(np.max(np.abs(fit - res["Xw_buf"]))) <= 1e-9 * (1.0 + float(np.max(np.abs(fit))))
+                except Exception:
+                    ok = False
+                res["buffers_consistent"] = bool(ok)
+                s.probe("interrupt_buffers_consistent" if ok else "interrupt_buffers_inconsistent")
+            return out
         if res["exc"] is not None:
             exc = res["exc"]
             if exc.get("harness"):
@@ -179,6 +198,13 @@ class Judge:
         # returns the caller's own vector: not a vector the solver produced)
         no_work = bool(res.get("infeasible_start")) and not (res.get("seam") or {}).get("outer") \
             and not (res.get("seam") or {}).get("epochs") and not len(res["obj_out"])
+        if no_work:
+            # ... which only the fixed-point score can do (the distance to the subdifferential
+            # is infinite at an infeasible point), and only for a point within tol of the set
+            wv_ = np.asarray(w, dtype=float)
+            hi = float(pr.pen.alpha) if pr.pen.name == "IndicatorBox" else np.inf
+            excess = float(np.max(np.maximum(np.maximum(-wv_, wv_ - hi), 0.0), initial=0.0))
+            no_work = criterion_of(s.solver_name, knobs) == "fixpoint" and excess <= tol * (1 + REL)
         if pr.pen.has_constraint and not pr.pen.feasible(w) and not no_work:
             wv = np.asarray(w)
             out.append(dict(prop=["C04"], oracle="feasible", sig=sig0 + ("infeasible",),
